@@ -2,8 +2,8 @@
 import json
 import os
 import harness
-from facts import (norm, call_name, short, subnodes, lit_value, matches_on_type, lit_table, pat_lits, str_lits_in, field_reads)
-from prov import Prov, has_field, has_call
+from facts import norm, call_name, short, subnodes, lit_value
+from prov import Prov
 import gram as G
 from builder_ai import BuilderAI, RULE
 
@@ -29,15 +29,19 @@ def r07a(P, R):
     g, ai = model(P)
     R.count("grammar_rules", len(g.rules))
     R.count("builder_functions", len(ai.fns))
-    counts = {}
+    counts, covered = {}, {}
     for key, o in sorted(ai.oblig.items()):
         counts[o["kind"]] = counts.get(o["kind"], 0) + 1
+        covered.setdefault(o["kind"], set()).update(o["rule"].strip("{}").split(",") if o["kind"] == "as_rule" else [o["rule"]])
         if o["kind"] == "text":
             continue
-        if o["ok"]:
+        d = o["detail"] or {}
+        if d.get("undecided"):
+            # the rule set of the pair went through a construct the interpreter does not model exactly: no positive evidence
+            R.undecided("R07-a", key, "not decided (the rule set of the pair is over-approximated here): %s" % o["msg"], loc=o["loc"], detail=d)
+        elif o["ok"]:
             R.holds("R07-a", key, o["msg"], loc=o["loc"])
         else:
-            d = o["detail"] or {}
             if o["kind"] == "parts":
                 how = []
                 if d.get("panics"):
@@ -54,18 +58,33 @@ def r07a(P, R):
                 msg = "an identifier/keyword is built from the whole text of a %s pair, which is not a single name token (its text includes " \
                       "punctuation or trivia): the AST name differs from the name in the text" % o["rule"]
             else:
-                msg = "a match over as_rule() with a panicking fallback does not handle %s (%s)" % (d.get("unhandled"), o["msg"])
+                msg = "a branch on as_rule() that panics is reached for %s (%s)" % (d.get("unhandled"), o["msg"])
             R.violated("R07-a", key, msg, loc=o["loc"], detail=d)
-    for kind, floor in (("parts", 32), ("only_child", 23), ("all_children", 15), ("as_rule", 15)):
-        R.floor("R07-a", "%s sites" % kind, counts.get(kind, 0), floor)
-    unreached = [p for p, s in ai.params.items() if not s and not ai.pairs_params.get(p) and not ai.text_params.get(p)]
-    R.check("R07-a", "builders-reached", not unreached, "every builder function is reached with a known rule set",
-            "builder functions never reached from the parse entry points (their preconditions are not analysed): %s" % [u[len(B) + 2:] for u in unreached])
-    # entry: EOI and the top rule
-    for name, top in (("build_operation_document", "ExecutableDocument"), ("build_type_system_or_extension_document", "TypeSystemExtensionDocument")):
-        f = P.fn(B + "::" + name)
-        R.check("R07-a", "entry:" + name, ai.pairs_params.get(f.path) == frozenset({top}), "entered with the %s pair" % top,
-                "%s is entered with %s" % (name, sorted(ai.pairs_params.get(f.path, []))), loc=f.loc())
+    # floors count the grammar rules under an obligation, not the sites: merging two identical sites into one helper, or
+    # splitting one, leaves them unchanged
+    for kind, floor in (("parts", 30), ("only_child", 21), ("all_children", 13), ("as_rule", 49)):
+        R.floor("R07-a", "grammar rules under %s obligations" % kind, len(covered.get(kind, ())), floor)
+    unreached = ai.unreached()
+    if unreached:
+        R.undecided("R07-a", "builders-reached", "builder functions for which no call site supplies a rule set (their bodies are not decided): %s"
+                    % [ai._rel(u) for u in unreached])
+    else:
+        R.holds("R07-a", "builders-reached", "every builder function is reached with a known rule set")
+    # entry: the builder of each document type (anchored by the AST type it returns) is entered with that document's top rule
+    for name, ret, top in (("build_operation_document", "nitrogql_ast::operation_ext::OperationDocumentExt", "ExecutableDocument"),
+                           ("build_type_system_or_extension_document", "nitrogql_ast::type_system::TypeSystemOrExtensionDocument", "TypeSystemExtensionDocument")):
+        cands = [f for f in ai.fns.values() if (f.sig_output or "").split("<")[0] == ret
+                 and any("pest::iterators" in (t or "") for t in f.sig_inputs)]
+        if len(cands) != 1:
+            R.undecided("R07-a", "entry:" + name, "kind=anchor-missing: %d builder functions take pairs and return %s" % (len(cands), ret.split("::")[-1]))
+            continue
+        f = cands[0]
+        got = ai.pairs_params.get(f.path) or ai.params.get(f.path)
+        if not got:
+            R.undecided("R07-a", "entry:" + name, "no parse entry point hands a parse result to %s" % f.name, loc=f.loc())
+            continue
+        R.check("R07-a", "entry:" + name, got == frozenset({top}), "entered with the %s pair" % top,
+                "%s is entered with %s" % (f.name, sorted(got)), loc=f.loc())
 
 
 def r07b(P, R):
@@ -83,58 +102,122 @@ def r07b(P, R):
                     "texts the grammar can produce for %s and the string arms that consume them differ: unhandled %s, dead arms %s"
                     % (o["rule"], d.get("unhandled"), d.get("dead")), loc=o["loc"])
     R.floor("R07-b", "text matches", n, 2)
+
+    def tables_for(rule):
+        """the matches that consume the text of a pair of `rule`, wherever they live (anchored by what they consume)"""
+        return [t for t in ai.text_tables if rule in t["rules"]]
     # escape values (spec: \\b U+0008, \\f U+000C, \\n U+000A, \\r U+000D, \\t U+0009, \\" \\\\ \\/ themselves)
-    f = P.fn(B + "::value::build_string_value")
     want = {'\\"': '"', "\\\\": "\\", "\\/": "/", "\\b": "\u0008", "\\f": "\u000c", "\\n": "\n", "\\r": "\r", "\\t": "\t"}
-    found = {}
-    for m in matches_on_type(f, "str"):
-        for lits, guard, catch, arm in lit_table(m):
-            for l in lits:
-                body = arm["body"]
-                v = lit_value(body)
-                found[l] = v
+    tabs = tables_for("EscapedCharacter")
     for esc, ch in sorted(want.items()):
-        R.check("R07-b", "escape:%r" % esc, found.get(esc) == ch, "%s -> U+%04X" % (esc, ord(ch)),
-                "escape sequence %s decodes to %r (spec: U+%04X)" % (esc, found.get(esc), ord(ch)), loc=f.loc())
-    ot = P.fn(B + "::operation::str_to_operation_type")
+        key = "escape:%r" % esc
+        arms = [(t, t["arms"][esc]) for t in tabs if esc in t["arms"]]
+        if not arms:
+            R.undecided("R07-b", key, "no `match` over the text of an EscapedCharacter pair has an arm for %s: how the escape is decoded is not decided" % esc)
+            continue
+        wrong = [(t, a) for t, a in arms if a["lit"] is not None and a["lit"] != ch]
+        unknown = [(t, a) for t, a in arms if a["lit"] is None]
+        if wrong:
+            R.violated("R07-b", key, "escape sequence %s decodes to %r (spec: U+%04X)" % (esc, wrong[0][1]["lit"], ord(ch)), loc=wrong[0][0]["loc"])
+        elif unknown:
+            R.undecided("R07-b", key, "the arm for %s does not yield a literal character: not decided" % esc, loc=unknown[0][0]["loc"])
+        else:
+            R.holds("R07-b", key, "%s -> U+%04X" % (esc, ord(ch)), loc=arms[0][0]["loc"])
     wanto = {"query": "Query", "mutation": "Mutation", "subscription": "Subscription"}
-    for m in matches_on_type(ot, "str"):
-        for lits, guard, catch, arm in lit_table(m):
-            for l in lits:
-                made = [norm(x.get("def", "")).split("::")[-1] for x in subnodes(arm["body"]) if x.get("k") == "Path" and "OperationType::" in norm(x.get("def", ""))]
-                R.check("R07-b", "operation-type:" + l, made[:1] == [wanto.get(l)], "%s -> %s" % (l, wanto.get(l)), "keyword `%s` builds OperationType::%s" % (l, made[:1]), loc=ot.loc())
-    bv = P.fn(B + "::value::build_value")
-    for x in bv.walk():
-        if x.get("k") == "Match" and x["scrut"].get("k") == "MethodCall" and x["scrut"]["method"] == "as_rule":
-            for arm in x["arms"]:
-                rs = [norm(p.get("def", ""))[len(RULE):] for p in subnodes(arm["pat"]) if norm(p.get("def", "")).startswith(RULE)]
-                v = lit_value(arm["body"])
-                if rs == ["KEYWORD_true"]:
-                    R.check("R07-b", "boolean:true", v is True, "true -> true", "KEYWORD_true builds %r" % v, loc=bv.loc())
-                if rs == ["KEYWORD_false"]:
-                    R.check("R07-b", "boolean:false", v is False, "false -> false", "KEYWORD_false builds %r" % v, loc=bv.loc())
+    tabs = tables_for("OperationType")
+    if not tabs:
+        R.undecided("R07-b", "operation-type", "no `match` over the text of an OperationType pair found: the keyword -> OperationType mapping is not decided")
+    for t in tabs:
+        for l, a in sorted(t["arms"].items()):
+            made = (a["ctor"] or "").split("::")[-1] if a["ctor"] and "OperationType::" in a["ctor"] else None
+            if made is None:
+                R.undecided("R07-b", "operation-type:" + l, "the arm for `%s` does not name an OperationType variant: not decided" % l, loc=t["loc"])
+            else:
+                R.check("R07-b", "operation-type:" + l, made == wanto.get(l), "%s -> %s" % (l, wanto.get(l)), "keyword `%s` builds OperationType::%s" % (l, made), loc=t["loc"])
+    seen = set()
+    for t in ai.rule_tables:
+        for kw, val in (("KEYWORD_true", True), ("KEYWORD_false", False)):
+            if kw in t["table"] and isinstance(t["table"][kw], bool):
+                seen.add(kw)
+                word = kw.split("_")[1]
+                R.check("R07-b", "boolean:" + word, t["table"][kw] is val, "%s -> %s" % (word, word), "%s builds %r" % (kw, t["table"][kw]), loc=t["loc"])
+    for kw in ("KEYWORD_true", "KEYWORD_false"):
+        if kw not in seen:
+            R.undecided("R07-b", "boolean:" + kw.split("_")[1], "no `match` over the rule of a pair maps %s to a boolean literal: not decided" % kw)
+
+
+# Rows of tables/field_fill.json that recorded an artefact of the former, purely syntactic source computation (the rules of the locals
+# an expression happened to mention) rather than the grammar part:
+#  * the block-string arm of the StringValue builder takes the text of the BlockStringValue pair (lost in a tuple pattern);
+#  * three list fields were recorded by the rule of their elements because the code names a local for `pair.all_children(..)` /
+#    `pair.into_inner()`; the part the grammar assigns is the enclosing pair whose children they are.
+TABLE_AMEND = {"value::StringValue.value": ["BlockStringValue", "NormalStringValue", "StringCharacter"],
+               "variable::VariablesDefinition.definitions": ["VariableDefinition", "VariablesDefinition"],
+               "type_system::ArgumentsDefinition.input_values": ["ArgumentsDefinition", "InputValueDefinition"]}
 
 
 def r07c(P, R):
     g, ai = model(P)
     want = json.load(open(TABLE))
-    got = {"%s.%s" % (adt.replace("nitrogql_ast::", ""), fld): sorted(srcs) for (adt, fld), srcs in ai.fills.items()}
+    want.update(TABLE_AMEND)
+    got = {"%s.%s" % (adt.replace("nitrogql_ast::", ""), fld): rec for (adt, fld), rec in ai.fills.items()}
     R.floor("R07-c", "AST fields filled by the builders", len(got), 150)
+    unreached = set(ai.unreached())
     for key in sorted(set(want) | set(got)):
-        w, gt = want.get(key), got.get(key)
+        w, rec = want.get(key), got.get(key)
         if w is None:
-            R.undecided("R07-c", "fill:" + key, "new AST field filled from %s has no row in tables/field_fill.json" % gt)
+            if key.startswith(("base::Ident.", "base::Keyword.")):
+                continue        # hand-built identifiers are decided by R07-e ident-coherent
+            R.undecided("R07-c", "fill:" + key, "new AST field filled from %s has no row in tables/field_fill.json" % sorted(rec["m"]))
             continue
-        if gt is None:
-            R.violated("R07-c", "fill:" + key, "kind=anchor-missing: no builder fills `%s` any more (table row: %s)" % (key, w))
+        if rec is None:
+            R.undecided("R07-c", "fill:" + key, "kind=anchor-missing: no struct literal in the builders fills `%s` any more (table row: %s); how the "
+                        "field is built is not decided" % (key, w))
             continue
-        R.check("R07-c", "fill:" + key, set(gt) == set(w), "<- %s" % ",".join(gt),
-                "AST field `%s` is built from grammar part(s) %s; the GraphQL grammar assigns it %s" % (key, gt, w))
-    # no struct-update syntax in builders (a `..base` would fill fields from elsewhere)
+        w = set(w)
+        m, leaf = rec["m"], rec["leaf"]
+        if not m:
+            if rec["fuzzy"] or (rec["fns"] & unreached):
+                R.undecided("R07-c", "fill:" + key, "the source of `%s` is not decided (%s)" % (key, "filled in a function that is not reached"
+                                                                                                  if rec["fns"] & unreached else "imprecise value"))
+            else:
+                R.violated("R07-c", "fill:" + key, "AST field `%s` is built from no grammar part at all; the GraphQL grammar assigns it %s" % (key, sorted(w)))
+            continue
+        # a source is justified when it is an assigned part, or a pair obtained from inside an assigned part
+        unjust = sorted(x for x in m if x not in w and not (m[x] & w))
+        if not unjust:
+            inner = sorted(x for x in m if x not in w and x in leaf)
+            if key.endswith((".position", ".pos")) and inner:
+                # the start of a sub-part need not be the start of the part
+                R.undecided("R07-c", "fill:" + key, "the position `%s` is read from %s, a sub-part of the assigned part %s: whether both start at the same "
+                            "place is not decided" % (key, inner, sorted(w)))
+            else:
+                R.holds("R07-c", "fill:" + key, "<- %s" % ",".join(sorted(m)))
+            continue
+        coarse = [x for x in unjust if x in g.rules and (g.descendants(x) & w)]        # encloses an assigned part
+        foreign = [x for x in unjust if x not in coarse]
+        read = [x for x in coarse if x in leaf]
+        if (foreign or read) and not rec["fuzzy"]:
+            what = []
+            if foreign:
+                what.append("it also derives from %s, which is neither an assigned part nor inside one" % foreign)
+            if read:
+                what.append("it reads the text/position of the enclosing %s pair instead of the assigned part" % read)
+            R.violated("R07-c", "fill:" + key, "AST field `%s` is built from grammar part(s) %s; the GraphQL grammar assigns it %s: %s"
+                       % (key, sorted(m), sorted(w), "; ".join(what)))
+        elif rec["fuzzy"]:
+            R.undecided("R07-c", "fill:" + key, "AST field `%s` is built from %s (table: %s), but the rule set of the source pair is over-approximated "
+                        "there: not decided" % (key, sorted(m), sorted(w)))
+        else:
+            R.undecided("R07-c", "fill:" + key, "AST field `%s` is built from %s, of which %s enclose(s) the assigned part %s without its own text being "
+                        "read: same part at a coarser granularity, not decided" % (key, sorted(m), coarse or unjust, sorted(w)))
+    # struct-update syntax in builders: a `..base` fills fields this rule does not see
     for p, f in ai.fns.items():
         for n in f.walk():
-            if n.get("k") == "Struct" and "rest" not in n and ("base" in n or n.get("default_tail")):
-                R.violated("R07-c", "no-base:" + short(p), "%s builds an AST node with `..base`" % p, loc=f.loc())
+            if n.get("k") == "Struct" and "rest" not in n and ("base" in n or n.get("default_tail")) \
+                    and norm(n.get("variant") or n.get("adt") or "").startswith("nitrogql_ast::"):
+                R.undecided("R07-c", "no-base:" + short(p), "%s builds an AST node with `..base`: the fields it takes from the base value are not decided" % p,
+                            loc=f.loc())
 
 
 def r07d(P, R):
@@ -240,25 +323,84 @@ def r07d(P, R):
     for n, sep in (("ImplementsInterfaces", "&"), ("UnionMemberTypes", "|"), ("DirectiveLocations", "|")):
         ok = any(x == ("opt", ("str", sep)) for x in _walk(body(n)))
         R.check("R07-d", "leading-separator:" + n, ok, "optional leading `%s`" % sep, "%s does not allow a leading `%s`" % (n, sep))
-    # block strings must go through the spec's BlockStringValue() routine
-    f = P.fn(B + "::value::build_string_value")
-    pv = Prov(f)
-    blk = None
-    for x in f.walk():
-        if x.get("k") == "Match" and x["scrut"].get("k") == "MethodCall" and x["scrut"]["method"] == "as_rule":
-            for arm in x["arms"]:
-                rs = [norm(p.get("def", ""))[len(RULE):] for p in subnodes(arm["pat"]) if norm(p.get("def", "")).startswith(RULE)]
-                if rs == ["BlockStringValue"]:
-                    blk = arm
-    if blk is None:
-        R.violated("R07-d", "block-string-value", "kind=anchor-missing: no BlockStringValue arm in build_string_value", loc=f.loc())
+    # block strings must go through the spec's BlockStringValue() routine.  Anchor: the builder of nitrogql_ast StringValue (the
+    # function that narrows a pair to BlockStringValue), with its helpers virtually inlined.
+    from templates import inlined
+    RAW = {"as_str", "split_at", "into", "to_owned", "to_string", "from", "trim_start_matches", "trim_end_matches", "strip_prefix", "strip_suffix",
+           "unwrap", "expect", "unwrap_or", "unwrap_or_default", "get", "clone", "as_ref", "deref", "borrow", "new", "index", "as_span", "split_at_checked"}
+    if "pred" not in _cache:
+        _cache["pred"] = lambda fn: fn.path in ai.fns       # helpers of the builders are inlined, the PairExt primitives are not
+    found = []
+    for p, f0 in sorted(ai.fns.items()):
+        if not any(rule_of_node(x) == "BlockStringValue" for x in f0.walk()):
+            continue
+        f = inlined(P, f0, pred=_cache["pred"])
+        pv = Prov(f)
+        for x in f.walk():
+            if x.get("k") == "Match":
+                for arm in x["arms"]:
+                    rs = [norm(q.get("def", ""))[len(RULE):] for q in subnodes(arm["pat"]) if norm(q.get("def", "")).startswith(RULE)]
+                    if rs == ["BlockStringValue"]:
+                        found.append((f0, pv, arm["body"]))
+            elif x.get("k") == "If":
+                tests = [q for q in subnodes(x["cond"]) if rule_of_node(q) == "BlockStringValue"]
+                others = [q for q in subnodes(x["cond"]) if rule_of_node(q) not in (None, "BlockStringValue")]
+                neg = any(q.get("k") == "Unary" and q.get("op") == "Not" for q in subnodes(x["cond"])) or \
+                    any(q.get("k") == "Binary" and q.get("op") == "!=" for q in subnodes(x["cond"]))
+                if tests and not others and not neg:
+                    found.append((f0, pv, x["then"]))
+    # what flows into StringValue.value on that branch
+    sites = []
+    for f0, pv, body in found:
+        for x in subnodes(body):
+            if x.get("k") == "Struct" and "rest" not in x and norm(x.get("variant") or x.get("adt") or "").endswith("value::StringValue"):
+                for fld in x["fields"]:
+                    if fld["name"] == "value":
+                        sites.append((f0, pv, fld["e"]))
+    if not sites:
+        R.undecided("R07-d", "block-string-value", "kind=anchor-missing: no branch of the builders taken exactly for a BlockStringValue pair builds a "
+                    "StringValue; whether block strings pass through a BlockStringValue() routine is not decided")
     else:
-        calls = {x[1].split("::")[-1] for x in pv.atoms(blk["body"]) if x[0] == "call"}
-        raw_only = calls <= {"as_str", "split_at", "len", "into", "to_pos", "to_owned", "to_string", "from", "only_child"}
-        R.check("R07-d", "block-string-value", not raw_only, "block string contents pass through a BlockStringValue() routine",
-                "build_string_value returns the raw text between the `\"\"\"` delimiters (only %s are applied): the common indentation is not "
-                "removed, leading/trailing blank lines are kept and `\\\"\"\"` is not unescaped, so the parsed value differs from the value the "
-                "text denotes (spec §2.9.4 BlockStringValue)" % sorted(calls), loc=f.loc())
+        f0, pv, e = sites[0]
+        # the string-valued operations on the data path from the pair's text to StringValue.value (how the pair itself was obtained,
+        # positions and panics are not text operations)
+        calls = set()
+        for x in _data_path_calls(pv, e):
+            t = x.get("t") or ""
+            if "inl" in x or "Pair<" in t or not any(w in t for w in ("str", "String", "char")):
+                continue
+            calls.add(x["method"] if x.get("k") == "MethodCall" else (call_name(x) or "?").split("::")[-1])
+        linewise = calls & {"lines", "split", "split_terminator", "split_inclusive", "char_indices", "chars", "bytes", "find", "replace"}
+        if calls <= RAW:
+            R.violated("R07-d", "block-string-value", "%s returns the raw text between the `\"\"\"` delimiters (only %s are applied): the common "
+                       "indentation is not removed, leading/trailing blank lines are kept and `\\\"\"\"` is not unescaped, so the parsed value differs "
+                       "from the value the text denotes (spec §2.9.4 BlockStringValue)" % (f0.name, sorted(calls)), loc=f0.loc())
+        elif linewise:
+            R.holds("R07-d", "block-string-value", "block string contents are processed line/character-wise (%s)" % sorted(linewise), loc=f0.loc())
+        else:
+            R.undecided("R07-d", "block-string-value", "block string contents pass through %s: whether that is the BlockStringValue() routine is not "
+                        "decided" % sorted(calls - RAW), loc=f0.loc())
+
+
+def _data_path_calls(pv, e):
+    """Call / MethodCall nodes on the data path of expression e: below e and below the sources of every local it mentions"""
+    out, seen, stack = [], set(), [e]
+    while stack:
+        n = stack.pop()
+        for x in subnodes(n):
+            if x.get("k") in ("Call", "MethodCall"):
+                out.append(x)
+            elif x.get("k") == "Path" and "local" in x and x["local"] not in seen:
+                seen.add(x["local"])
+                for src, extra in pv.src.get(x["local"], []):
+                    if src is not None:
+                        stack.append(src)
+    return out
+
+
+def rule_of_node(n):
+    d = norm(n.get("def", "")) if isinstance(n, dict) else ""
+    return d[len(RULE):] if d.startswith(RULE) else None
 
 
 def _walk(e):
@@ -271,37 +413,122 @@ def _walk(e):
     return out
 
 
+def _pair_prim(P, name):
+    """the PairExt-style primitive `name` implemented for pest's Pair (anchored by receiver type and name, wherever the trait lives)"""
+    hits = [f for f in P.fns.values() if f.name == name and (f.self_ty or "").startswith("pest::iterators::pair::Pair") and not f.derived]
+    return hits[0] if len(hits) == 1 else None
+
+
+def _pos_conversion(tp):
+    """("ok" | "bad" | "unknown", message) for the 1-based -> 0-based conversion in to_pos"""
+    calls = [c for c in tp.walk() if c.get("k") == "Call" and (call_name(c) or "").endswith("base::Pos::new")]
+    if len(calls) != 1 or len(calls[0]["args"]) != 2:
+        return "unknown", "to_pos does not build its result with one Pos::new(line, column) call"
+    comps, tuples = {}, set()
+
+    def strip(e):
+        while isinstance(e, dict) and e.get("k") in ("DropTemps", "Use", "AddrOf", "Cast", "Type"):
+            e = e["e"]
+        return e
+    for n in tp.walk():
+        if n.get("k") == "Let" and "init" in n:
+            init = strip(n["init"])
+            if init.get("k") == "MethodCall" and init["method"] == "line_col":
+                pat = n["pat"]
+                if pat.get("k") == "Tuple" and len(pat["ps"]) == 2 and all(p.get("k") == "Binding" for p in pat["ps"]):
+                    comps[pat["ps"][0]["local"]], comps[pat["ps"][1]["local"]] = 0, 1
+                elif pat.get("k") == "Binding":
+                    tuples.add(pat["local"])
+
+    def comp(e):
+        e = strip(e)
+        if e.get("k") == "Path" and e.get("local") in comps:
+            return comps[e["local"]]
+        if e.get("k") == "Field" and str(e.get("field")) in ("0", "1"):
+            b = strip(e["e"])
+            if (b.get("k") == "Path" and b.get("local") in tuples) or (b.get("k") == "MethodCall" and b["method"] == "line_col"):
+                return int(e["field"])
+        return None
+
+    def arg(e):
+        e = strip(e)
+        if e.get("k") == "Binary" and e.get("op") == "-" and comp(e["l"]) is not None and lit_value(e["r"]) is not None:
+            return comp(e["l"]), str(lit_value(e["r"]))
+        if comp(e) is not None:
+            return comp(e), "0"
+        return None
+    a0, a1 = arg(calls[0]["args"][0]), arg(calls[0]["args"][1])
+    if a0 is None or a1 is None:
+        return "unknown", "the arguments of Pos::new in to_pos are not `component - literal` of pair.line_col()"
+    if a0 == (0, "1") and a1 == (1, "1"):
+        return "ok", "Pos::new(line - 1, column - 1) from pair.line_col()"
+    names = ("line", "column")
+    return "bad", "to_pos builds Pos::new(%s - %s, %s - %s) from pest's 1-based (line, column): the AST wants 0-based (line, column)" % (
+        names[a0[0]], a0[1], names[a1[0]], a1[1])
+
+
 def r07e(P, R):
     """positions: 1-based pest line/col -> 0-based Pos; every position in the AST derives from a pair"""
+    from templates import inlined
     g, ai = model(P)
-    tp = P.fn("<pest::iterators::pair::Pair<nitrogql_parser::parser::Rule> as " + B + "::utils::PairExt>::to_pos")
-    pv = Prov(tp)
-    calls = [c for c in tp.walk() if c.get("k") == "Call" and (call_name(c) or "").endswith("base::Pos::new")]
-    ok = False
-    if calls:
-        a0, a1 = calls[0]["args"]
-
-        def minus_one(e, name):
-            return e.get("k") == "Binary" and e.get("op") == "-" and lit_value(e["r"]) == "1" and e["l"].get("k") == "Path" and e["l"].get("name") == name
-        ok = minus_one(a0, "line") and minus_one(a1, "column") and any(c.get("k") == "MethodCall" and c["method"] == "line_col" for c in tp.walk())
-    R.check("R07-e", "to_pos", ok, "Pos::new(line - 1, column - 1) from pair.line_col()", "to_pos does not convert pest's 1-based (line, column) to 0-based in that order", loc=tp.loc())
+    tp = _pair_prim(P, "to_pos")
+    if tp is None:
+        R.undecided("R07-e", "to_pos", "kind=anchor-missing: no unique `to_pos` implemented for pest's Pair")
+    else:
+        verdict, msg = _pos_conversion(tp)
+        if verdict == "unknown":
+            R.undecided("R07-e", "to_pos", msg, loc=tp.loc())
+        else:
+            R.check("R07-e", "to_pos", verdict == "ok", msg, msg, loc=tp.loc())
     n = 0
-    for (adt, fld), srcs in sorted(ai.fills.items()):
+    unreached = set(ai.unreached())
+    for (adt, fld), rec in sorted(ai.fills.items()):
         if fld in ("position", "pos"):
             n += 1
-            R.check("R07-e", "position-source:" + adt.split("::")[-1], bool(srcs), "position taken from a pair (%s)" % ",".join(sorted(srcs)[:3]),
-                    "%s.%s is not derived from a parsed pair" % (adt, fld))
+            key = "position-source:" + adt.split("::")[-1]
+            if rec["m"]:
+                R.holds("R07-e", key, "position taken from a pair (%s)" % ",".join(sorted(rec["m"])[:3]))
+            elif rec["fuzzy"] or (rec["fns"] & unreached):
+                R.undecided("R07-e", key, "the source of %s.%s is not decided (filled in a function the interpreter does not reach)" % (adt, fld))
+            else:
+                R.violated("R07-e", key, "%s.%s is not derived from a parsed pair" % (adt, fld))
     R.floor("R07-e", "position fields", n, 35)
     bad = []
     for p, f in ai.fns.items():
         for c in f.walk():
-            if c.get("k") == "Call" and (call_name(c) or "").endswith(("Pos::builtin", "Pos::default", "Default::default")):
+            if c.get("k") != "Call":
+                continue
+            cn = call_name(c) or ""
+            if cn.endswith("Pos::builtin") or (cn.endswith(("Pos::default", "Default::default")) and norm(c.get("t") or "").endswith("base::Pos")):
                 bad.append(short(p))
     R.check("R07-e", "no-builtin-positions", not bad, "no builder uses a builtin/default position", "builders that use builtin positions: %s" % bad)
-    for name, fields in (("to_ident", ("position", "name")), ("to_keyword", ("position", "name"))):
-        f = P.fn("<pest::iterators::pair::Pair<nitrogql_parser::parser::Rule> as " + B + "::utils::PairExt>::" + name)
-        calls = {c["method"] for c in f.walk() if c.get("k") == "MethodCall"}
-        R.check("R07-e", name, {"to_pos", "as_str"} <= calls, "%s = (to_pos(), as_str())" % name, "%s is not built from to_pos()/as_str()" % name, loc=f.loc())
+    # identifiers / keywords built by hand in a builder: the name and the position must be those of the same pair
+    seen = {}
+    for site in ai.ident_sites:
+        base = "ident-coherent:%s:%s" % (ai._rel(site["fn"]), site["adt"])
+        seen[base] = seen.get(base, 0) + 1
+        key = "%s#%d" % (base, seen[base] - 1)
+        nm, ps = site["by"].get("name"), site["by"].get("position")
+        if nm is None or ps is None or nm[2] or ps[2] or not nm[0] or not ps[0]:
+            R.undecided("R07-e", key, "where the name and the position of this %s come from is not decided" % site["adt"], loc=site["loc"])
+        elif set(nm[0]) <= set(ps[0]) or set(ps[0]) <= set(nm[0]):
+            R.holds("R07-e", key, "name and position both from the %s pair" % "/".join(sorted(set(nm[0]) & set(ps[0]))), loc=site["loc"])
+        elif not (set(nm[0]) & set(ps[0])):
+            R.violated("R07-e", key, "the name of this %s is the text of a %s pair, but its position is that of a %s pair: the reported position "
+                       "does not point at the name" % (site["adt"], "/".join(sorted(nm[0])), "/".join(sorted(ps[0]))), loc=site["loc"])
+        else:
+            R.undecided("R07-e", key, "name from %s, position from %s: not decided" % (sorted(nm[0]), sorted(ps[0])), loc=site["loc"])
+    for name in ("to_ident", "to_keyword"):
+        f = _pair_prim(P, name)
+        if f is None:
+            R.undecided("R07-e", name, "kind=anchor-missing: no unique `%s` implemented for pest's Pair" % name)
+            continue
+        calls = {c["method"] for c in inlined(P, f).walk() if c.get("k") == "MethodCall"}
+        calls |= {(call_name(c) or "").split("::")[-1] for c in inlined(P, f).walk() if c.get("k") == "Call"}
+        if {"to_pos", "as_str"} <= calls:
+            R.holds("R07-e", name, "%s = (to_pos(), as_str())" % name, loc=f.loc())
+        else:
+            R.undecided("R07-e", name, "%s is not visibly built from to_pos()/as_str() (calls: %s): not decided" % (name, sorted(calls)), loc=f.loc())
 
 
 RULES = [("R07-a", r07a), ("R07-b", r07b), ("R07-c", r07c), ("R07-d", r07d), ("R07-e", r07e)]
@@ -309,13 +536,17 @@ EXPLANATION = (
     "Grammar/builder agreement decided by language inclusion, for every input text: (R07-a) for every builder site, the regular language "
     "of child-token sequences the pest grammar can emit for the rules reaching that site (pest's emission semantics: atomic/compound/"
     "silent rules, lookaheads, EOI) is included, exactly, in what the site consumes — parts! slot patterns, only_child, all_children, "
-    "matches over as_rule() with a panicking fallback, the manual loop of ImplementsInterfaces; rule sets of Pair values are computed "
-    "by abstract interpretation of the builders over the typed HIR, joined over call sites to a fixpoint; exact acceptance means no "
-    "panic and no silently ignored child; (R07-b) finite text languages (operation types, escapes with their code points, booleans) "
-    "equal the string arms consuming them; (R07-c) each AST field is filled from the grammar part the GraphQL grammar assigns to it "
-    "(reviewed table tables/field_fill.json); (R07-d) lexical conformance of selected productions with the spec, and block strings "
-    "must pass through a BlockStringValue() routine; (R07-e) 1-based to 0-based position conversion, every position derived from a "
-    "pair. Not decided: parse(render(A)) = A for all renderings; column units for non-BMP text.")
+    "branches on the rule of a pair that panic (match / if / let-else / matches! / helper predicates), manual next() sequences; rule "
+    "sets of Pair values are computed by a flow-sensitive abstract interpretation of the builders over the typed HIR (closures, loops, "
+    "helper functions with parameters and return values joined over call sites to a fixpoint); exact acceptance means no panic and no "
+    "silently ignored child; a rule set that went through a construct the interpreter does not model exactly makes a failing site "
+    "UNDECIDED, not VIOLATED; (R07-b) finite text languages (operation types, escapes with their code points, booleans) equal the arms "
+    "consuming them, located by what they consume; (R07-c) each AST field is filled only from the grammar part the GraphQL grammar "
+    "assigns to it (reviewed table tables/field_fill.json) or from pairs obtained from inside that part — VIOLATED when it derives from a "
+    "foreign part or reads the text/position of an enclosing pair; (R07-d) lexical conformance of selected productions with the spec, and "
+    "block strings must pass through a BlockStringValue() routine; (R07-e) 1-based to 0-based position conversion, every position "
+    "derived from a pair, hand-built identifiers take name and position from the same pair. Not decided: parse(render(A)) = A for all "
+    "renderings; column units for non-BMP text; whether a position read from a sub-part equals the part's start.")
 ASSUMPTIONS = ["pest 2.7 token-emission semantics as modelled in rules/gram.py (atomicity, silent rules, implicit trivia emits no tokens)",
                "ordered choice over-approximated by union", "tables/field_fill.json reviewed by hand against the GraphQL grammar"]
 
